@@ -55,13 +55,9 @@ class DetSched:
         if t.is_blocked():
             raise Blocked("thread %s is blocked on %s" % (name, t.waiting_for))
         self.active = t
-        old = sys.gettrace()
-        if self.line_funcs:
-            sys.settrace(self._tracer)
         try:
             label = t.g.switch()
         finally:
-            sys.settrace(old)
             self.active = None
         if t.g.dead:
             t.done = True
@@ -119,10 +115,14 @@ class DetSched:
             return                  # not inside a scheduled thread: no-op
         if self.active.atomic > 0:
             return
-        old = sys.gettrace()
-        sys.settrace(None)
-        self.main.switch(label)
-        sys.settrace(old)
+        if self.line_funcs:
+            # Line mode (CPython 3.12): the tracer stays installed for the scheduler's lifetime - toggling
+            # sys.settrace de-instruments suspended frames - and the switch happens through sys.call_tracing
+            # because a line yield switches greenlets from inside the trace callback (tstate->tracing > 0),
+            # a flag greenlet does not save: other logical threads would otherwise run untraced.
+            sys.call_tracing(self.main.switch, (label,))
+        else:
+            self.main.switch(label)
 
     def _tracer(self, frame, event, arg):
         if event == "call":
@@ -140,6 +140,14 @@ class DetSched:
         for f in funcs:
             code = getattr(f, "__code__", None) or f.__func__.__code__
             self.line_funcs[code] = code.co_name
+        if self.line_funcs and sys.gettrace() is not self._tracer:
+            self._old_trace = sys.gettrace()
+            sys.settrace(self._tracer)
+
+    def close(self):
+        """Uninstall the line tracer (line mode only)."""
+        if self.line_funcs and sys.gettrace() == self._tracer:
+            sys.settrace(getattr(self, "_old_trace", None))
 
     def current_thread(self):
         return self.active
